@@ -65,6 +65,7 @@ type Spec struct {
 	InitPkgs   []string // harness dir names whose package init is interpreted (in order)
 	Jobs       func(tier string) []Job
 	Setup      func(e *sym.Engine, st *sym.State, l *sym.Loaded) // per-worker: stubs, redirects, natives
+	AbstractHash bool // the hash is an uninterpreted function: counterexamples may need collisions the real hash lacks
 	Prepare    func(rc *RunCtx) error                            // once per run, before jobs are listed
 	MustReach  []string
 	Bounds     map[string]string // tier -> human-readable bound
@@ -265,7 +266,13 @@ func (rc *RunCtx) runJobs(jobs []Job) {
 		go func() {
 			defer wg.Done()
 			for j := range ch {
+				if os.Getenv("GOSYM_PROGRESS") != "" {
+					fmt.Printf("START %s\n", j.Name())
+				}
 				r := rc.runJob(j)
+				if os.Getenv("GOSYM_PROGRESS") != "" {
+					fmt.Printf("DONE  %s %.1fs paths=%d err=%s\n", j.Name(), r.Seconds, r.Stats.Paths, r.Err)
+				}
 				mu.Lock()
 				rc.Results = append(rc.Results, r)
 				mu.Unlock()
@@ -555,7 +562,11 @@ func (rc *RunCtx) processEvents() {
 		case "skip":
 			rc.Notes = append(rc.Notes, "spurious counterexample (not realisable through the public API / assumption violated natively): "+desc+" :: "+lastLines(o.ro.output, 3))
 		case "ok":
-			rc.Infra = append(rc.Infra, "counterexample did not reproduce natively (encoder or stub mismatch): "+desc)
+			if rc.Spec.AbstractHash {
+				rc.Notes = append(rc.Notes, "abstract counterexample not reproduced natively (it needs a hash collision that the real hash function may not have; outside the claim): "+desc)
+			} else {
+				rc.Infra = append(rc.Infra, "counterexample did not reproduce natively (encoder or stub mismatch): "+desc)
+			}
 		default:
 			rc.Infra = append(rc.Infra, "replay failed to run: "+desc+" :: "+lastLines(o.ro.output, 6))
 		}
